@@ -10,7 +10,7 @@ ROOT = os.path.dirname(os.path.dirname(os.path.abspath(__file__)))
 
 
 def write(pid, group, witness, obligations):
-    d = os.path.join(ROOT, "replays")
+    d = os.environ.get("VERIF_REPLAY_DIR") or os.path.join(ROOT, "replays")
     os.makedirs(d, exist_ok=True)
     name = re.sub(r"[^A-Za-z0-9_.-]+", "_", f"{pid}-{group}") + ".json"
     path = os.path.join(d, name)
